@@ -749,6 +749,22 @@ class Sym:
             return ('repeat', self.op_term(p, rv['op']), rv['n'])
         return ('unknown', rv.get('text'))
 
+    def iterates_fresh_empty_vec(self, p, it):
+        """the iterator is `Vec::new().into_iter()` of a vector that nothing on this path could have filled (no `&mut` to it
+        was ever handed to a call)"""
+        while isinstance(it, tuple) and it and (it[0] in ('ref', 'deref') or (it[0] == 'call' and len(it[2]) == 1 and it[1].split('::')[-1] == 'into_iter')):
+            it = it[1] if it[0] != 'call' else it[2][0]
+        if not (isinstance(it, tuple) and it[0] == 'call' and it[1] in ('std::vec::Vec::<T>::new', 'alloc::vec::Vec::<T>::new') and not it[2]):
+            return False
+        for e in p.effects:
+            if e[0] == 'call':
+                for a in e[2]:
+                    if isinstance(a, tuple) and a and a[0] == 'ref' and len(a) > 2 and a[2] and term_contains(a[1], it):
+                        return False
+            elif e[0] == 'write' and (term_contains(e[1], it) or term_contains(e[2], it)):
+                return False
+        return True
+
     def apply_closure_value(self, path, args, block, depth=0):
         """(result term, call effects) of `Fn::call(&closure, (a, b, ..))` when the closure is a known closure value of this
         crate whose body is one straight path without writes; else None"""
@@ -1014,6 +1030,9 @@ class Sym:
                     path = c.get('resolved') or c['path']
                     term = ('call', path, tuple(args), b)
                     term = simplify_call(term, c, t)
+                    if path.split('::')[-1] == 'next' and len(args) == 1 and self.iterates_fresh_empty_vec(p, args[0]):
+                        # `for x in Vec::new()` (a helper's early `return Vec::new()`): nothing to iterate
+                        term = ('agg', 'std::option::Option::None', FrozenDict(()), 0)
                     applied = self.apply_closure_value(path, args, b) if path.split('::')[-1] in ('call', 'call_mut', 'call_once') and c.get('trait', '').startswith('std::ops::Fn') else None
                     if applied is not None:
                         # calling a closure value that is known on this path (a predicate handed to a helper): its single
